@@ -104,6 +104,8 @@ def build_problem(case):
                                    conv_approx=0.3,
                                    vel_range=wl.choose(rng, [(0.05, 6.0),
                                                              (0.02, 2.0)]))
+        if rng.random() < 0.25:
+            feats['near_bounds'] = wl.near_region_bounds(rng, P)
     return P, feats
 
 
@@ -246,6 +248,22 @@ def check_unrodded(res, rec, key):
     p = 0.0 if p is None else float(np.sum(p))
     T0 = rec['pre']['coolant_int']
     T1 = rec['post']['coolant_int']
+    # the heat is converted with coolant properties at the region's own
+    # mean temperature of the previous level (for one node: that node)
+    t_own = float(np.mean(T0))
+    # (asserted for the six-node model, which refreshes the properties
+    # inside its update; the one-node model uses those in force at entry -
+    # at the first step after activation whatever set-up left there, an
+    # O(dz) lag that is not asserted)
+    if six:
+        res.close('I7_properties_at_own_mean_temperature',
+                  props['T'] - t_own, t_own, 1e-9,
+                  '%s region advanced with coolant properties at %.4f K, its '
+                  'own mean temperature is %.4f K' % (reg.model, props['T'],
+                                                      t_own),
+                  dict(key, stream='six-node'),
+                  {'z': rec['z1'], 'T_used': props['T'], 'T_own': t_own,
+                   'nodes': [float(x) for x in np.ravel(T0)]})
     perim6 = (reg.duct_ftf[1] * 6 / np.sqrt(3.0)) / 6.0
     # wall temperatures as used: single node solves the wall first (post),
     # six node advances the coolant with the previous wall (pre)
